@@ -127,6 +127,24 @@ def implicit_tag(d):
     return None
 
 
+_BASELINE = None
+def uncontracted(u, gen):
+    have = {fs.path for fs in u.fns}
+    return sorted({n for n, a, b in gen.fn_ranges if _in_extracted(n, gen) and n not in have})
+
+
+def new_uncontracted(u, gen):
+    """Functions of the extracted text without an entry in the contract file that were not there when the contracts were written
+    (contracts/baseline.json, written by tools/gen_baseline.py on the unchanged tree)."""
+    global _BASELINE
+    if _BASELINE is None:
+        bp = os.path.join(ROOT, 'contracts', 'baseline.json')
+        _BASELINE = json.load(open(bp)) if os.path.exists(bp) else {}
+    if u.name not in _BASELINE: return []
+    base = set(_BASELINE[u.name])
+    return [n for n in uncontracted(u, gen) if n not in base]
+
+
 def decide(pid, runs, known):
     """Returns dict with verdict info for property pid."""
     obligations = []      # dicts
@@ -198,6 +216,20 @@ def decide(pid, runs, known):
                     ob['status'] = 'undecided'
                     ob['why'] = f'another obligation of unit {u.name} failed, so contracts this proof relies on are not established: {desc}'
                     ob['diagnostic'] = d0.rendered[:1500]
+        # "needs contract", not "bug": a failed obligation in a function that calls a function the contracts have never seen (present in the
+        # extracted text, no entry in the .vc file, not in contracts/baseline.json) is undecided - the verifier knows nothing about the callee.
+        newfns = new_uncontracted(u, ur.gen)
+        if newfns:
+            lines = ur.gen.text.split('\n')
+            for ob in obligations:
+                if ob['unit'] != u.name or ob['status'] != 'failed': continue
+                fname = ob.get('failed_in') or ob['function']
+                rng = [(a, b) for n, a, b in ur.gen.fn_ranges if n == fname]
+                if not rng: continue
+                body = '\n'.join(lines[rng[0][0] - 1:rng[0][1]])
+                hit = [n for n in newfns if re.search(r'(?<![\w])%s\s*\(' % re.escape(n.split('::')[-1]), body) and n != fname]
+                if hit:
+                    ob['status'] = 'undecided'; ob['why'] = 'needs contract: ' + fname + ' calls ' + ', '.join(hit) + ', a function the contract file has no entry for (new helper); the failure says nothing about the property'
         if ur.twin_missing:
             for ob in obligations:
                 if ob['unit'] == u.name and any(ob['function'] in t for t in ur.twin_missing):
@@ -207,9 +239,13 @@ def decide(pid, runs, known):
         if ob['status'] != 'failed': continue
         kf = [k for k in known if k.get('status', 'open') == 'open' and k['property'] == pid and k['obligation'] in ob['tags'] + [ob['id']] and (k.get('function') in (None, ob['function'], ob.get('failed_in')))
               and (ob.get('finding_id') in (None, k['id']))]
-        if kf and witness_reproduces(kf[0]):
+        wr = witness_reproduces(kf[0]) if kf else False
+        if kf and wr:
             ob['status'] = 'known-finding'; ob['finding'] = kf[0]['id']
             known_seen.append((kf[0], ob))
+        elif kf and wr is None:
+            # the replay binary could not be rebuilt against this tree: neither "the listed finding" nor "a different violation" is established
+            ob['status'] = 'undecided'; ob['why'] = 'listed finding ' + kf[0]['id'] + ': its recorded witness could not be replayed (replay binary does not build against this tree)'
         else:
             if kf: ob['why'] = 'listed finding ' + kf[0]['id'] + ' but its recorded witness no longer reproduces: this is a different violation'
             violations.append(ob)
@@ -224,12 +260,13 @@ def witness_reproduces(k):
     if not wc: return True
     from . import kani as K
     try:
-        K.extract(); K._prepare()
+        K.extract()
     except Unsupported:
-        return False
+        pass        # the ledger replay runs the real cgt-core only; the last generated extracted.rs is good enough to build the crate
+    K._prepare()
     env = dict(os.environ, CARGO_NET_OFFLINE='true')
     b = subprocess.run(['cargo', 'build', '--offline', '--bin', 'cgt-verif-replay'], cwd=K.KDIR, capture_output=True, text=True, env=env, timeout=1800)
-    if b.returncode != 0: return False
+    if b.returncode != 0: return None
     exe = os.path.join(ROOT, 'build', 'kani-target', 'debug', 'cgt-verif-replay')
     wf = os.path.join(BUILD, 'witness-' + k['id'] + '.cgt'); open(wf, 'w').write(k['witness'])
     r = subprocess.run([exe, '--ledger', wf], capture_output=True, text=True, timeout=120)
